@@ -144,7 +144,10 @@ def run_async(case: gen.Case, nevents: int, rng: random.Random, on_step: Callabl
             exc = e
         st = Step(-1, "start", None, config_of(interp), interp.context, interp.status,
                   interp.output, 0, extra=exc)
-        if on_step(run, st) or exc is not None:
+        r = on_step(run, st)
+        if asyncio.iscoroutine(r):
+            r = await r
+        if r or exc is not None:
             await _safe_stop_async(interp)
             return
         n = len(events) if events is not None else nevents
@@ -168,7 +171,10 @@ def run_async(case: gen.Case, nevents: int, rng: random.Random, on_step: Callabl
                 exc = e
             st = Step(i, "send", ev, config_of(interp), interp.context, interp.status,
                       interp.output, mark, extra=exc)
-            if on_step(run, st):
+            r = on_step(run, st)
+            if asyncio.iscoroutine(r):
+                r = await r
+            if r:
                 break
         await _safe_stop_async(interp)
 
